@@ -390,7 +390,11 @@ def _enc(n, d, out, sites, lay, depth):
         out += v
         return
     if k == "union":
-        for i, b in enumerate(n.branches):
+        order = list(enumerate(n.branches))
+        if isinstance(d, float):
+            # a foreign writer that does not lose precision: prefer 'double' for a Python float
+            order.sort(key=lambda ib: 0 if deref(ib[1]).k == "double" else 1)
+        for i, b in order:
             if conforms(b, d, logical=False):
                 v = zz(i)
                 sites.append({"off": len(out), "len": len(v), "kind": "union", "n": len(n.branches), "depth": depth})
@@ -595,6 +599,10 @@ def normal_eq(n, d, r):
     if k == "union":
         if isinstance(d, tuple) and len(d) == 2 and isinstance(d[0], str):
             return any(branch_name(b) == d[0] and normal_eq(b, d[1], r) for b in n.branches)
+        if isinstance(d, float) and any(deref(b).k == "double" for b in n.branches):
+            # documented writer behaviour: a Python float is never narrowed to 'float' when the
+            # union offers 'double' -- it must come back bit-exact
+            return _float_eq(d, r)
         return any(conforms(b, d, logical=False) and normal_eq(b, d, r) for b in n.branches)
     if k == "null":
         return d is None and r is None
